@@ -283,6 +283,55 @@ def judge_traces(out, entries, res, relevant, domain=None, per_grammar=2):
         out.notes.append('harness process died while parsing grammar %s (exit %s)' % (gid, rc))
 
 
+def judge_abandoned(out, entries, res, domain, workname, what=('ok', 'msgs'), per_grammar=2):
+    """A trace abandoned at a TABLE difference (the dumped table and the canonical one prescribe different actions) has
+    not been compared beyond that point.  For properties stated on the OUTCOME (verdict, messages) the specification's
+    outcome for that very input is generated by TLC and compared with what the real parser finally did."""
+    import traces as tl
+    cands = []
+    for e in entries:
+        if domain is not None and e.gid not in domain:
+            continue
+        for rj in res.rejects.get(e.gid, []):
+            if classify_reject(rj) == 'table' and rj.get('trace'):
+                cands.append((e, rj))
+    if not cands:
+        return 0
+    need = {}
+    for e, rj in cands:
+        t = rj['trace']
+        need[(e.gid, tuple(t['bytes']), bool(t['ws']), bool(t['nl']))] = e
+    ents = []
+    for e in need.values():
+        if e not in ents:
+            ents.append(e)
+    verd, _ = prun.spec_verdicts(ents, list(need.keys()), workname)
+    per = collections.Counter()
+    n = 0
+    for e, rj in cands:
+        t = rj['trace']
+        v = verd.get((e.gid, tuple(t['bytes']), bool(t['ws']), bool(t['nl'])))
+        if v is None or v['status'] not in ('acc', 'rej'):
+            continue
+        n += 1
+        tn = e.tla['tnames']
+        spec_msgs = [[m[0], m[1], m[2], (tn[m[3] - gram.TB] if m[0] == 'synerr' else m[3])] for m in v['msgs']]
+        real_msgs = [c for c in (tl.classify(ev[1]) for ev in t['events'] if ev[0] == 'L') if c[0] in ('synerr', 'unexp')]
+        bad = []
+        if 'ok' in what and (v['status'] == 'acc') != t['ok']:
+            bad.append('verdict')
+        if 'msgs' in what and spec_msgs != real_msgs:
+            bad.append('messages')
+        if bad:
+            per[e.g.name] += 1
+            if per[e.g.name] <= per_grammar:
+                vio = trace_violation(e, rj, 'outcome(' + ','.join(bad) + ')')
+                vio['summary']['spec_outcome'] = {'accepts': v['status'] == 'acc', 'messages': spec_msgs}
+                vio['summary']['real_outcome'] = {'accepts': t['ok'], 'messages': real_msgs}
+                out.violations.append(vio)
+    return n
+
+
 def ws_inputs(g, L, extra, cap, rng=None):
     alpha = [ord(t) for t in g.ts] + list(extra)
     res = []
@@ -376,6 +425,16 @@ def check_C09(tier, seed):
             entries.append(pipeline.host_entry(g, 0))
         except ValueError:
             pass
+    # a declared nonterminal WITHOUT rules standing before one that has rules (rule slices are built per nonterminal)
+    gap = [g for g in gengram.small_grammars(stride=53, limit=4000, nts=('S', 'A', 'B'), ts=('a', 'b'), max_rules=3, max_rhs=2)
+           if not any(l == 'A' for (l, _, _) in g.rules) and any(l == 'B' for (l, _, _) in g.rules)]
+    gap.sort(key=lambda g: -sum(1 for (l, _, _) in g.rules if l == 'B'))       # several rules behind the gap first
+    for g in gap[:10 if tier == 'quick' else 60]:
+        g.name = 'gap' + g.name
+        try:
+            entries.append(pipeline.host_entry(g, 0))
+        except ValueError:
+            pass
     # generated lexers over multi-character terms (term sets the automaton layer of C04 finds correct): an 'Unexpected
     # character' must appear exactly where NO term matches
     import lx as lxl
@@ -411,7 +470,8 @@ def check_C09(tier, seed):
         raise Infra('the specification itself fails its oracles: ' + json.dumps(res.design_errors)[:3000])
     domain = {e.gid for e in entries if e.gid in res.conflicts and res.conflicts[e.gid]['n'] == 0}
     judge_traces(out, entries, res, {'report', 'extra:synerr', 'extra:unexp', 'verdict', 'extra:unknown'}, domain)
-    # error detected at a different token than the canonical table would: executed through the witness traces already
+    # traces abandoned at a table difference: verdict and messages against the specification's outcome for that input
+    nab = judge_abandoned(out, entries, res, domain, 'C09ab')
     failing = sum(1 for e in entries for t in e.traces if not t['ok'])
     out.coverage = base_coverage(res, {
         'grammars': len(entries), 'grammars_conflict_free_per_spec': len(domain), 'failing_inputs_validated': failing,
@@ -507,10 +567,18 @@ def check_C08(tier, seed):
             entries.append(pipeline.host_entry(g, 1))
         except ValueError:
             pass
+    # the line-oriented idiom: the newline is a term that ends the discarding (only meaningful with skip_newline(false))
+    entries += entries_for(gram.Grammar('err_lines', ['S', 'T'], ['a', 'b', '\n'], 'S',
+                                        [('S', ['S', 'T'], 0), ('S', ['T'], 0), ('T', ['a', '\n'], 0), ('T', ['a', 'b', '\n'], 0), ('T', ['error', '\n'], 0)]), hosts=())
     for e in entries:
         ins = all_inputs(e.g, L if len(e.g.ts) <= 3 else L - 1, 800 if tier == 'quick' else 5000)
         pipeline.add_jobs(e, ins, verbose=True)
         pipeline.add_jobs(e, ins[::5], verbose=False)
+        # recovery under the other whitespace options: what is skipped while discarding is what the options say
+        oins = [x for x in ws_inputs(e.g, 4, [32, 10], 1500 if tier == 'quick' else 6000) if 32 in x or 10 in x]
+        oins = oins[::max(1, len(oins) // (150 if tier == 'quick' else 1200))]
+        for (ws, nl) in ((1, 0), (0, 1), (0, 0)):
+            pipeline.add_jobs(e, oins, verbose=True, ws=ws, nl=nl, tag='o%d%d_' % (ws, nl))
     res, work = prun.run(entries, 'C08', design_L=4 if tier == 'quick' else 5, do_product=True,
                          tlc_procs=4 if tier == 'quick' else 8, tlc_workers=4 if tier == 'quick' else 2)
     if res.design_errors:
@@ -1171,6 +1239,11 @@ def check_C04(tier, seed):
     good = [j for j in jobs if j[0] in items and j[0] not in ref and j[0] not in model and j[0] not in static]
     fam = [j for j in good if j[1] in lxl.FAMILIES]
     pick = fam[:6 if tier == 'quick' else 30] + rng.sample(good, min(len(good), 6 if tier == 'quick' else 40))
+    # repetition counts of several digits: the pattern's meaning (RegexSyntax!Doc) against the lexemes really delivered
+    rep_inputs = {'[0-9]{12}': [[0x31] * n for n in (11, 12, 13, 21, 24)] + [[0x31] * 12 + [0x2d] + [0x32] * 12],
+                  'a{10}': [[0x61] * n for n in (1, 9, 10, 11, 20)] + [[0x61] * 9 + [0x62]],
+                  'x{101}': [[0x78] * n for n in (11, 100, 101, 102, 202)]}
+    pick += [j for j in good if j[1] in lxl.FAMILIES[-3:] and j not in pick]
     entries = []
     seen_pick = set()
     for (lid, ts, _) in pick:
@@ -1194,6 +1267,9 @@ def check_C04(tier, seed):
             pipeline.add_jobs(e, [[rng.choice(alpha + alpha + wsb + [11, 12, 13, 0]) for _ in range(n)]], verbose=bool(rng.getrandbits(1)), ws=1, nl=rng.choice([0, 1]), tag='r')
         if len(entries) < (2 if tier == 'quick' else 8):
             byte_sweep(e)          # every byte value under the three whitespace settings (which bytes are skipped, which are not)
+        for t in ts:
+            if t[0] == 'R' and bytes(t[1]).decode('latin-1') in rep_inputs:
+                pipeline.add_jobs(e, rep_inputs[bytes(t[1]).decode('latin-1')], verbose=False, tag='rep')
         entries.append(e)
     res = None
     if entries:
@@ -1562,9 +1638,15 @@ def check_C07(tier, seed):
                     out.violations.append({'summary': {'grammar': e.gid, 'input': bytes(c['bytes']).decode('latin-1'), 'ws': c['ws'], 'nl': c['nl'], 'how': how, 'got(has_value,value)': g2,
                                                        'expected': exp, 'class': 'run-time result differs from the specification (hence from constant evaluation / other buffers)',
                                                        'exit': r.returncode}, 'kind': 'ct', 'gname': e.g.name, 'source': src})
+    # ---- the documented buffer interface itself: every walk of spec/Buffers.tla on the three buffers, cstring_buffer also in constant evaluation
+    import buffers
+    bprobs, bstats, brun = buffers.run(tier, 'C07buf')
+    for pb in bprobs:
+        out.violations.append({'summary': pb, 'kind': 'ct', 'gname': 'buffers', 'source': 'spec/Buffers.tla'})
     out.known = sorted(set(out.known))[:6]
     out.violations = out.violations[:12]
-    out.coverage = {'states': int(rv.distinct), 'transitions': int(max(rv.generated, 1)), 'traces_validated_against_impl': 0,
+    out.coverage = {'states': int(rv.distinct + brun.distinct), 'transitions': int(max(rv.generated + brun.generated, 1)), 'traces_validated_against_impl': 0,
+                    'buffer_interface_walks': bstats,
                     'grammars': len(tus), 'inputs_with_TLC_generated_expectation': ncases, 'static_asserts_passed(per compiler sum)': nct, 'run_time_comparisons': nrt,
                     'compilers': ['g++ -fsyntax-only', 'clang++ -fsyntax-only'], 'buffers': ['cstring_buffer', 'string_buffer', 'string_view_buffer'],
                     'parser_objects': ['constexpr', 'constructed at run time'],
